@@ -286,3 +286,136 @@ def run_obligations(obs, tier, seed, repo=None, jobs=None, hard_timeout=None):
     order = {ob.oid: i for i, ob in enumerate(obs)}
     out.sort(key=lambda d: order.get(d['oid'], 0))
     return out
+
+# ------------------------------------------------------------------------------------------
+# back end A helper
+def _bits_to_double(b):
+    import struct
+    return struct.unpack('>d', int(b, 2).to_bytes(8, 'big'))[0]
+
+def cbmc_contract(ctx, sub, fn, file, clauses, callee_contracts=None, externs=(), checks=None, timeout=None,
+                  nargs=None, extra_flags=(), replace=()):
+    """enforce `clauses` (verbatim __CPROVER_ clauses) on the real function fn (extracted to C on this run).
+    callee_contracts: name -> clauses for callees that are replaced by their contract (externs)."""
+    from . import cprint, cbmc, native
+    t0 = time.time()
+    fds = ctx.w.find(fn, file)
+    if nargs is not None:
+        fds = [f for f in fds if len(f.params) == nargs]
+    if len(fds) != 1:
+        ctx.record(sub, ERROR, 'A', 0, 'extraction: %d definitions of %s in %s' % (len(fds), fn, file))
+        return None
+    fd = fds[0]
+    contracts = dict(callee_contracts or {})
+    cp = cprint.CPrinter(ctx.w, contracts=contracts, externs=set(externs) | set((callee_contracts or {}).keys()))
+    m = cp.mangle(fd)
+    contracts[m] = clauses
+    try:
+        cp.add_function(fd)
+        decls = []
+        args = []
+        for i, p in enumerate(fd.params):
+            cty = cp.ctype(p.type, for_param=True)
+            nm = 'in_%s' % (p.name or i)
+            if cty.endswith('*') and not cty.startswith('const struct'):
+                base = cty[:-1].strip()
+                decls.append('%s %s;' % (base, nm))
+                args.append('&' + nm)
+            elif cty.startswith('const struct'):
+                decls.append('%s %s;' % (cty, nm))
+                args.append(nm)
+            else:
+                decls.append('%s %s;' % (cty, nm))
+                args.append(nm)
+        harness = 'void harness(void) { %s %s(%s); }' % (' '.join(decls), m, ', '.join(args))
+        src = cp.source(harness=harness)
+    except (cprint.PrintError, Exception) as e:
+        from .values import EvalError
+        ctx.record(sub, ERROR, 'A', time.time() - t0, 'extraction: %s: %s' % (type(e).__name__, e))
+        return None
+    for k, v in cp.rules.items():
+        ctx.rule_counts['A:' + k] = ctx.rule_counts.get('A:' + k, 0) + v
+    wd = native.workdir('cbmc')
+    try:
+        rep = sorted(set(cp.extern_mangled.values()))
+        res = cbmc.verify(wd, sub.replace('/', '_') or fn, src, 'harness', enforce=m, replace=list(rep) + list(replace),
+                          checks=checks or ('--bounds-check', '--pointer-check', '--div-by-zero-check'),
+                          timeout=timeout or (120 if ctx.tier == 'quick' else 900), extra=extra_flags)
+    finally:
+        native.cleanup(wd)
+    secs = time.time() - t0
+    if res.status == 'error':
+        ctx.record(sub, ERROR, 'A', secs, 'tool: ' + res.log[:1500])
+        return res
+    if res.status == 'undecided':
+        ctx.record(sub, UNDECIDED, 'A', secs, res.log)
+        return res
+    per = secs / max(1, len(res.props))
+    for name, desc, st in res.props:
+        gid = '%s.%s' % (sub, name) if sub else name
+        if st == 'SUCCESS':
+            ctx.record(gid, PROVED, 'A', per, solver='cbmc-6.11', kind='cbmc:' + (desc or '')[:80])
+        elif st == 'FAILURE':
+            model = None
+            tr = res.trace_inputs.get(name)
+            if tr:
+                model = {'_cbmc': tr}
+            p = [x for x in res.failed if x.get('property') == name][0]
+            vals = {}
+            for step in p.get('trace', []):
+                if step.get('stepType') == 'assignment' and step.get('sourceLocation', {}).get('function') == 'harness':
+                    lhs = step.get('lhs', '')
+                    v = step.get('value', {})
+                    if lhs.startswith('in_') and 'binary' in v and len(v['binary']) == 64 and v.get('type', '') == 'double':
+                        vals[lhs[3:]] = _bits_to_double(v['binary'])
+                    elif lhs.startswith('in_') and 'data' in v:
+                        try:
+                            vals[lhs[3:]] = float(v['data'])
+                        except ValueError:
+                            pass
+            model = {'_float': vals, '_clauses': clauses, '_fn': fn, '_file': file}
+            ctx.record(gid, FAILED, 'A', per, detail='cbmc: %s' % desc, model=model, solver='cbmc-6.11', kind='cbmc:' + (desc or '')[:80])
+        else:
+            ctx.record(gid, UNDECIDED, 'A', per, detail='cbmc status %s' % st, solver='cbmc-6.11')
+    return res
+
+def replay_cbmc_scalar(include_cpp, link_cpp):
+    """generic native replay for back end A failures on scalar functions: call the real function on the
+    counterexample inputs and evaluate the contract's ensures clauses in C++"""
+    def rep(model, wd):
+        from . import native
+        import re as _re
+        vals = model.get('_float') or {}
+        fn = model.get('_fn')
+        clauses = model.get('_clauses') or []
+        if not vals or not fn:
+            return None, 'no input values in the cbmc trace'
+        w = get_world()
+        fds = [f for f in w.find(fn, model.get('_file'))]
+        fd = [f for f in fds if len(f.params) == len(vals)] or fds
+        fd = fd[0]
+        names = [p.name for p in fd.params]
+        if any(n not in vals for n in names):
+            return None, 'trace does not bind all parameters: %s' % vals
+        posts = []
+        for c in clauses:
+            m = _re.match(r'__CPROVER_ensures\((.*)\)\s*$', c, _re.S)
+            if m:
+                e = m.group(1)
+                # a ==> b   ->   (!(a) || (b))
+                if '==>' in e:
+                    a, b2 = e.split('==>', 1)
+                    e = '(!(%s) || (%s))' % (a, b2)
+                e = e.replace('__CPROVER_return_value', 'r').replace('__CPROVER_isinfd', 'std::isinf').replace('isnan', 'std::isnan').replace('isinf(', 'std::isinf(').replace('std::std::', 'std::').replace('fabs', 'std::fabs')
+                posts.append(e)
+        args = ', '.join('a[%d]' % i for i in range(len(names)))
+        binds = ' '.join('double %s = a[%d];' % (n, i) for i, n in enumerate(names))
+        expr = '([&]{ %s double r = %s(%s); bool ok = true; %s return ok ? r : (std::printf("POSTFAIL\\n"), r); })()' % (
+            binds, fn, args, ' '.join('ok = ok && (%s);' % p for p in posts))
+        exe = native.build_scalar_driver(wd, include_cpp, link_cpp, [(fn, expr, len(names))])
+        import subprocess
+        inp = '%s %d %s\n' % (fn, len(names), ' '.join(float(vals[n]).hex() for n in names))
+        r = subprocess.run([exe], input=inp, capture_output=True, text=True, timeout=60)
+        bad = 'POSTFAIL' in r.stdout
+        return bad, 'inputs %s -> real code output: %s' % (vals, r.stdout.strip().replace('\n', ' | '))
+    return rep
